@@ -100,6 +100,8 @@ impl Main {
 fn err_class(s: &str) -> String {
     let mut out = String::new();
     let mut last_digit = false;
+    // first line only: binrw appends a multi-line, coloured backtrace
+    let s = s.lines().next().unwrap_or("").trim();
     for c in s.chars().take(110) {
         if c.is_ascii_digit() {
             if !last_digit {
@@ -277,10 +279,14 @@ fn run_spec(spec: &Spec, r: &mut CaseResult) {
         if inp.mcnk.is_none() {
             c0f.retain(|k, _| !k.starts_with("mcnk"));
         }
-        if inp.mtxf.is_none() {
-            // unspecified texture flags: the documented default (one zero per texture) is accepted
-            if c0f.get("texture_flags").map(|v| v.len() == 4 * inp.textures.len() && v.iter().all(|b| *b == 0)).unwrap_or(false) {
+        let mut c_in = c_in.clone();
+        if inp.mtxf.is_none() && c0f.contains_key("texture_flags") {
+            // unspecified texture flags: absent or the documented default (one zero per texture)
+            let dflt = vec![0u8; 4 * inp.textures.len()];
+            if c0f.get("texture_flags") == Some(&dflt) {
                 c0f.remove("texture_flags");
+            } else {
+                c_in.insert("texture_flags".into(), dflt);
             }
         }
         for (cls, d) in diff(&c_in, &c0f, "builder input", "parsed tile") {
@@ -397,13 +403,66 @@ fn repro(name: &str) {
     let p = |b: &[u8]| parse(b).expect("parse");
     match name {
         "mtxf" => {
-            // WotLK tile, nothing but one texture: MTXF is read until end of FILE, not end of chunk
+            // D1: WotLK tile, nothing but one texture: MTXF is read until end of FILE, not end of chunk
             let b0 = AdtBuilder::new().with_version(AdtVersion::WotLK).add_texture("a.blp").build().unwrap().to_bytes().unwrap();
             let r0 = p(&b0);
-            println!("file {} bytes, 1 texture, parsed texture_flags has {} entries", b0.len(), r0.texture_flags.as_ref().map(|m| m.flags.len()).unwrap_or(0));
+            println!("file {} bytes, 1 texture, parsed texture_flags has {} entries (expected 1)", b0.len(), r0.texture_flags.as_ref().map(|m| m.flags.len()).unwrap_or(0));
             let b1 = BuiltAdt::from_root_adt(r0, None).to_bytes().unwrap();
             let b2 = BuiltAdt::from_root_adt(p(&b1), None).to_bytes().unwrap();
-            println!("round 1: {} bytes, round 2: {} bytes", b1.len(), b2.len());
+            println!("round 1: {} bytes, round 2: {} bytes (expected: no growth)", b1.len(), b2.len());
+        }
+        "blend" => {
+            // D1 (MoP variant): MTXP / MBMH / MBBB / MBNV / MBMI are read until end of file as well
+            let s = Spec::full(5);
+            let inp = make_input(&s);
+            let b0 = build(&inp).unwrap().to_bytes().unwrap();
+            let r0 = p(&b0);
+            println!(
+                "given: 3 MTXP entries, 2 MBMH, 2 MBBB, 7 MBNV, 9 MBMI; parsed: {} / {} / {} / {} / {}",
+                r0.texture_params.as_ref().map(|m| m.entries.len()).unwrap_or(0),
+                r0.blend_mesh_headers.as_ref().map(|m| m.entries.len()).unwrap_or(0),
+                r0.blend_mesh_bounds.as_ref().map(|m| m.entries.len()).unwrap_or(0),
+                r0.blend_mesh_vertices.as_ref().map(|m| m.vertices.len()).unwrap_or(0),
+                r0.blend_mesh_indices.as_ref().map(|m| m.indices.len()).unwrap_or(0)
+            );
+        }
+        "refs" | "mclq" | "extras" | "mtxf_old" | "blend_nomtxp" | "mfbo" => {
+            let (dev, ver) = match name {
+                "refs" => ("refs=doodad_only", 0),        // D2
+                "mclq" => ("liquid=water", 0),            // D3
+                "extras" => ("extras=mcmt", 0),           // D4
+                "mfbo" => ("", 3),                        // D5
+                "mtxf_old" => ("mtxf=per_texture", 2),    // D6
+                _ => ("blend_mesh=two_batches", 5),       // D7
+            };
+            let mut s = Spec::minimal(ver);
+            if let Some((site, val)) = dev.split_once('=') {
+                let si = SITES.iter().position(|x| x.name == site).unwrap();
+                s.v[si] = SITES[si].vals.iter().position(|x| *x == val).unwrap() as u8;
+            }
+            let inp = make_input(&s);
+            let b0 = build(&inp).unwrap().to_bytes().unwrap();
+            println!("builder input: version {}, {}; file {} bytes", VERSIONS[ver].0, if dev.is_empty() { "one texture, one empty MCNK" } else { dev }, b0.len());
+            match parse(&b0) {
+                Err(e) => println!("parse_adt(to_bytes()) = Err({})", e.lines().next().unwrap_or("")),
+                Ok(r0) => {
+                    let m = &r0.mcnk_chunks[0];
+                    println!(
+                        "parsed: version {:?}; mcnk[0]: refs={:?} doodad_refs={:?} wmo_refs={:?} materials={:?}; texture_flags={:?}; flight_bounds={}; blend_mesh_headers={}",
+                        r0.version,
+                        m.refs.as_ref().map(|x| x.references.clone()),
+                        m.doodad_refs.as_ref().map(|x| x.doodad_refs.clone()),
+                        m.wmo_refs.as_ref().map(|x| x.wmo_refs.clone()),
+                        m.materials.map(|x| x.material_ids),
+                        r0.texture_flags.as_ref().map(|x| x.flags.len()),
+                        r0.flight_bounds.is_some(),
+                        r0.blend_mesh_headers.is_some()
+                    );
+                    let b1 = BuiltAdt::from_root_adt(r0, None).to_bytes().unwrap();
+                    let r1 = p(&b1);
+                    println!("after from_root_adt(root, None).to_bytes(): {} bytes; flight_bounds={}", b1.len(), r1.flight_bounds.is_some());
+                }
+            }
         }
         other => {
             // generic: "site=value,site=value@Version[@full]"
